@@ -308,10 +308,10 @@ func lastLines(s string, n int) string {
 // ---- parent -------------------------------------------------------------------------------------------------------
 
 type replayCase struct {
-	Graph  *Graph  `json:"graph"`
-	Config Config  `json:"config"`
-	Input  []uint8 `json:"input,omitempty"`
-	Source string  `json:"source"`
+	Graph  *Graph `json:"graph"`
+	Config Config `json:"config"`
+	Input  []int  `json:"first_failing_input,omitempty"`
+	Source string `json:"source"`
 }
 
 func main() {
@@ -404,7 +404,7 @@ func explore(run *vlib.Run, b Bounds, graphs []*Graph) {
 		}
 	}
 	// chunks of graphs with a bounded number of VM launches (leaked goroutines) per worker process
-	const maxVMsPerWorker = 6000
+	const maxVMsPerWorker = 2500
 	type chunk struct{ lo, hi int }
 	var chunks []chunk
 	nCfg := make([]int, len(graphs))
@@ -433,6 +433,8 @@ func explore(run *vlib.Run, b Bounds, graphs []*Graph) {
 		results[i] = make([]*cfgResult, nCfg[i])
 	}
 	var aborted []failure // configs that killed / hung their worker
+	var workerNotes []string
+	const hangLimit = 240 * time.Second
 	capHit := ""
 	sink := func(r cfgResult) {
 		mu.Lock()
@@ -487,7 +489,7 @@ func explore(run *vlib.Run, b Bounds, graphs []*Graph) {
 					for i := lo; i < ch.hi; i++ {
 						gs[i] = graphs[i]
 					}
-					pending, completed, note := spawn(run.Tier, gs, []string{"-lo", fmt.Sprint(lo), "-hi", fmt.Sprint(ch.hi), "-cfrom", fmt.Sprint(cfrom)}, sink, 90*time.Second)
+					pending, completed, note := spawn(run.Tier, gs, []string{"-lo", fmt.Sprint(lo), "-hi", fmt.Sprint(ch.hi), "-cfrom", fmt.Sprint(cfrom)}, sink, hangLimit)
 					if completed {
 						break
 					}
@@ -571,9 +573,12 @@ func explore(run *vlib.Run, b Bounds, graphs []*Graph) {
 		classCount[a.r.Class]++
 	}
 
-	// ---- confirm failures: re-run every failing config in 5 further worker processes -----------------------------
+	// ---- confirm failures: failing configs are re-run in 5 further worker processes -------------------------------
+	// (the first confirmCap failing configs in enumeration order, plus every case that would be the first of its
+	// signature; a case whose outcome is not identical over all runs is classed "nondeterministic", not wrong-result)
 	type key struct{ g, c int }
 	variants := map[key]map[string]bool{}
+	confirmed := map[key]bool{}
 	sigOf := func(r cfgResult) string {
 		return r.Class + "/" + r.Stage + "/" + r.OutHash + "/" + r.DumpHash + "/" + firstLine(r.Err)
 	}
@@ -581,25 +586,35 @@ func explore(run *vlib.Run, b Bounds, graphs []*Graph) {
 		variants[key{f.g, f.c}] = map[string]bool{sigOf(f.r): true}
 	}
 	const reruns = 5
+	confirmCap := 120
+	if run.Thorough() {
+		confirmCap = 1500
+	}
 	confirmComplete := true
-	if len(fails) > 0 {
+	confirm := func(list []failure) {
+		if len(list) == 0 {
+			return
+		}
 		var only []string
-		for _, f := range fails {
+		for _, f := range list {
 			only = append(only, fmt.Sprintf("%d:%d", f.g, f.c))
 		}
-		const per = 150
-		type batch struct{ list []string }
-		var batches []batch
+		per := (len(only) + workers - 1) / workers
+		if per > 100 {
+			per = 100
+		}
+		var batches [][]string
 		for round := 0; round < reruns; round++ {
 			for i := 0; i < len(only); i += per {
 				j := i + per
 				if j > len(only) {
 					j = len(only)
 				}
-				batches = append(batches, batch{only[i:j]})
+				batches = append(batches, only[i:j])
 			}
 		}
 		nb := 0
+		okRuns := map[key]int{}
 		var wg2 sync.WaitGroup
 		for w := 0; w < workers; w++ {
 			wg2.Add(1)
@@ -611,40 +626,58 @@ func explore(run *vlib.Run, b Bounds, graphs []*Graph) {
 						mu.Unlock()
 						return
 					}
-					if time.Since(startT) > deadline+2*time.Minute {
-						confirmComplete = false
-						mu.Unlock()
-						return
-					}
 					bt := batches[nb]
 					nb++
 					mu.Unlock()
 					gs := map[int]*Graph{}
-					for _, p := range bt.list {
+					for _, p := range bt {
 						var a, b int
 						fmt.Sscanf(p, "%d:%d", &a, &b)
 						gs[a] = graphs[a]
 					}
-					_, completed, _ := spawn(run.Tier, gs, []string{"-only", strings.Join(bt.list, ",")}, func(r cfgResult) {
+					remaining := bt
+					for attempt := 0; attempt < 3 && len(remaining) > 0; attempt++ {
+						got := map[string]bool{}
+						_, completed, note := spawn(run.Tier, gs, []string{"-only", strings.Join(remaining, ",")}, func(r cfgResult) {
+							mu.Lock()
+							variants[key{r.G, r.C}][sigOf(r)] = true
+							okRuns[key{r.G, r.C}]++
+							got[fmt.Sprintf("%d:%d", r.G, r.C)] = true
+							mu.Unlock()
+						}, hangLimit)
+						if completed {
+							break
+						}
 						mu.Lock()
-						variants[key{r.G, r.C}][sigOf(r)] = true
-						mu.Unlock()
-					}, 90*time.Second)
-					if !completed {
-						mu.Lock()
-						confirmComplete = false
+						workerNotes = append(workerNotes, "confirmation worker: "+note)
+						var rest []string
+						for _, p := range remaining {
+							if !got[p] {
+								rest = append(rest, p)
+							}
+						}
+						remaining = rest
 						mu.Unlock()
 					}
 				}
 			}()
 		}
 		wg2.Wait()
+		for _, f := range list {
+			if okRuns[key{f.g, f.c}] == reruns {
+				confirmed[key{f.g, f.c}] = true
+			} else {
+				confirmComplete = false
+			}
+		}
+	}
+	if len(fails) > confirmCap {
+		confirm(fails[:confirmCap])
+	} else {
+		confirm(fails)
 	}
 
-	// ---- report ----------------------------------------------------------------------------------------------------
-	sigCount := map[string]int{}
-	reported := map[string]bool{}
-	nondet := 0
+	// ---- classify + report -------------------------------------------------------------------------------------------
 	// feature masks of every configuration that passed both oracles
 	passing := map[uint32]bool{}
 	for gi := range graphs {
@@ -658,32 +691,73 @@ func explore(run *vlib.Run, b Bounds, graphs []*Graph) {
 			}
 		}
 	}
-	finders := map[string]*conditionFinder{}
-	finder := func(k string) *conditionFinder {
-		if finders[k] == nil {
-			finders[k] = newConditionFinder(passing)
-		}
-		return finders[k]
+	type classified struct {
+		f         failure
+		sig, what string
 	}
-	for _, f := range fails { // enumeration order: smallest graph first
+	classifyAll := func() (out []classified, firstUnconfirmed []failure) {
+		finders := map[string]*conditionFinder{}
+		finder := func(k string) *conditionFinder {
+			if finders[k] == nil {
+				finders[k] = newConditionFinder(passing)
+			}
+			return finders[k]
+		}
+		seen := map[string]bool{}
+		for _, f := range fails { // enumeration order: smallest graph first
+			g := graphs[f.g]
+			c := g.configs()[f.c]
+			mask := g.featureMask(c)
+			var sig, what string
+			if nv := len(variants[key{f.g, f.c}]); nv > 1 {
+				sig = "C06|nondeterministic|" + finder("nondeterministic").condition(mask)
+				what = fmt.Sprintf("the same graph+partition gives different results in different processes (%d distinct outcomes over %d runs); graph %s, partition %s", nv, reruns+1, g.Key(), c)
+			} else {
+				cond := finder(classKey(f.r)).condition(mask)
+				sig, what = classify(g, c, f.r, cond, results[f.g])
+			}
+			if !seen[sig] {
+				seen[sig] = true
+				if !confirmed[key{f.g, f.c}] {
+					firstUnconfirmed = append(firstUnconfirmed, f)
+				}
+			}
+			out = append(out, classified{f, sig, what})
+		}
+		return
+	}
+	var cls []classified
+	for iter := 0; iter < 4; iter++ {
+		var todo []failure
+		cls, todo = classifyAll()
+		if len(todo) == 0 {
+			break
+		}
+		confirm(todo)
+		for _, f := range todo { // a case that cannot be confirmed (worker died) must not loop forever
+			confirmed[key{f.g, f.c}] = true
+		}
+	}
+	sigCount := map[string]int{}
+	reported := map[string]bool{}
+	nondet := 0
+	for _, x := range cls {
+		f := x.f
 		g := graphs[f.g]
 		c := g.configs()[f.c]
-		mask := g.featureMask(c)
-		var sig, what string
-		if len(variants[key{f.g, f.c}]) > 1 {
+		if strings.HasPrefix(x.sig, "C06|nondeterministic|") {
 			nondet++
-			sig = "C06|nondeterministic|" + finder("nondeterministic").condition(mask)
-			what = fmt.Sprintf("the same graph+partition gives different results in different processes (%d distinct outcomes over %d runs); graph %s, partition %s", len(variants[key{f.g, f.c}]), reruns+1, g.Key(), c)
-		} else {
-			cond := finder(classKey(f.r)).condition(mask)
-			sig, what = classify(g, c, f.r, cond, results[f.g])
 		}
-		sigCount[sig]++
-		if !reported[sig] {
-			reported[sig] = true
-			run.Report(sig, what, replayCase{g, c, f.r.BadIn, g.Source(c)})
+		sigCount[x.sig]++
+		if !reported[x.sig] {
+			reported[x.sig] = true
+			w := x.what
+			if !strings.HasPrefix(x.sig, "C06|nondeterministic|") {
+				w += " [outcome identical in 5 further worker processes]"
+			}
+			run.Report(x.sig, w, replayCase{g, c, ints(f.r.BadIn), g.Source(c)})
 		} else {
-			run.Report(sig, "", nil)
+			run.Report(x.sig, "", nil)
 		}
 	}
 	for _, a := range aborted {
@@ -691,7 +765,7 @@ func explore(run *vlib.Run, b Bounds, graphs []*Graph) {
 		c := g.configs()[a.c]
 		if a.r.Class == "hang" {
 			// no wall-clock oracle: a hang is a cap, not an alarm
-			capHit = "a worker made no progress for 90 s on one configuration (skipped)"
+			capHit = "a worker made no progress for 240 s on one configuration (skipped)"
 			continue
 		}
 		sig := "C06|assembler-abort|" + abortCondition(a.r.Err)
@@ -703,6 +777,12 @@ func explore(run *vlib.Run, b Bounds, graphs []*Graph) {
 	run.Set("exhaustive", exhaustive)
 	if capHit != "" {
 		run.Set("cap_hit", capHit)
+	}
+	if len(workerNotes) > 0 {
+		if len(workerNotes) > 10 {
+			workerNotes = workerNotes[:10]
+		}
+		run.Set("worker_notes", workerNotes)
 	}
 	run.Set("bounds", map[string]any{
 		"max_instances": b.MaxInst, "fragment_kinds": kindNames(), "max_external_inputs": b.MaxExtIn, "max_external_outputs": b.MaxExtOut,
@@ -722,7 +802,8 @@ func explore(run *vlib.Run, b Bounds, graphs []*Graph) {
 	run.Set("distinct_nontrivial", nontrivial)
 	run.Set("failure_classes", classCount)
 	run.Set("failing_configurations_by_signature", sigCount)
-	run.Set("failing_configurations_rerun_5x_in_other_processes", len(fails))
+	run.Set("failing_configurations", len(fails))
+	run.Set("failing_configurations_rerun_5x_in_other_processes", len(confirmed))
 	run.Set("failing_configurations_nondeterministic", nondet)
 	run.Set("metamorphic_graph_groups_compared", metaGroups)
 	run.Set("metamorphic_groups_disagreeing", metaDisagree)
@@ -731,16 +812,18 @@ func explore(run *vlib.Run, b Bounds, graphs []*Graph) {
 	run.Set("rule", "for every graph G, partition/order P and input x: the BASM text (fragments, fidef, filinkdef/filinkatt, one cpdef fragcollapse list per block of P) is assembled by basm's public API, run on bondmachine.VM with x held on the external inputs for T = 2*Lmax*(n+1)+2n+8 ticks (Lmax = longest CP program, n = instances); outputs at tick T must stay unchanged for 2*Lmax+2 more ticks and equal eval(G)(x) mod 256; the output tables of all P of one G must be identical; an assembler error on a topologically valid P is a failure")
 	run.Assume("only opcodes with a faithful Go simulation are used in fragments (inc, add, cpy) plus what the composer inserts (i2r, r2o, cpy, j)")
 	run.Assume("iomode async: external inputs are level signals held for the whole run; result = settled outputs")
-	// samples: actual sources of passing cases
+	// samples: actual sources of passing cases (one fully collapsed, one mixed, one fully split) and of failing cases
 	ns := 0
-	for gi := len(graphs) - 1; gi >= 0 && ns < 3; gi -= 1 + len(graphs)/3 {
+	for gi := len(graphs) - 1; gi >= 0 && ns < 3; gi -= 1 + len(graphs)/7 {
 		g := graphs[gi]
 		cf := g.configs()
-		for ci := len(cf) - 1; ci >= 0; ci-- {
+		want := []int{0, len(cf) / 2, len(cf) - 1}[ns]
+		for d := 0; d < len(cf); d++ {
+			ci := (want + d) % len(cf)
 			if r := results[gi][ci]; r != nil && r.Class == "" && r.NonTrivial {
 				in := inputVectors(g.NExtIn)
 				x := in[len(in)/2]
-				run.Sample(map[string]any{"graph": g.Key(), "partition": cf[ci].String(), "source": g.Source(cf[ci]), "example_input": x, "expected_and_observed_output": g.Eval(x), "verdict": "pass (all inputs)"})
+				run.Sample(map[string]any{"graph": g.Key(), "partition": cf[ci].String(), "source": g.Source(cf[ci]), "example_input": ints(x), "expected_and_observed_output": ints(g.Eval(x)), "verdict": "pass (all input vectors)"})
 				ns++
 				break
 			}
@@ -752,9 +835,17 @@ func explore(run *vlib.Run, b Bounds, graphs []*Graph) {
 		}
 		g := graphs[f.g]
 		c := g.configs()[f.c]
-		run.Sample(map[string]any{"graph": g.Key(), "partition": c.String(), "source": g.Source(c), "class": f.r.Class, "input": f.r.BadIn, "got": f.r.Got, "want": f.r.Want, "error": firstLine(f.r.Err)})
+		run.Sample(map[string]any{"graph": g.Key(), "partition": c.String(), "source": g.Source(c), "class": f.r.Class, "input": ints(f.r.BadIn), "got": ints(f.r.Got), "want": ints(f.r.Want), "error": firstLine(f.r.Err)})
 	}
 	run.Finish()
+}
+
+func ints(b []uint8) []int {
+	r := make([]int, len(b))
+	for i, v := range b {
+		r[i] = int(v)
+	}
+	return r
 }
 
 func firstLine(s string) string {
